@@ -8,8 +8,8 @@ CONSTANTS
                     "badBool", "boolTwoOctets", "badBitStringPadding", "bitStringPadTooBig", "emptyBitString", "badTime"}
   DeliberateDiff = {"oidArcLeading80", "highTagLeading80", "genTimeFraction", "setOfUnsorted"}
   Benign = {"rawInnerNonDER", "trailingInSequence"}
-  AncestorDefects <- AllDefects
-  Wraps <- Wraps1
+  AncestorDefects <- QuickAncestorDefects
+  Wraps <- Wraps2
 INIT Init
 NEXT Next
 INVARIANTS TypeOK LaxSuperset LaxOnlyDocumented LaxPropagates AncestorDepth LaxIsLocal StrictEqUpstream DiffsAreDiffs
